@@ -1,6 +1,7 @@
 (* C17 -- proofs about Sys/GitRefs.v.  Stdlib only. *)
 From Coq Require Import List NArith Bool Arith Lia.
-From NB Require Import Base.Json Sys.GitRefs.
+From NB Require Import Base.Json.
+From NB Require Import Sys.GitRefs.
 Import ListNotations.
 
 (* ------------------------------------------------------------------ path arithmetic *)
